@@ -43,6 +43,13 @@ func swarmFaults(k *K, allowLoss bool) FaultCfg {
 	if k.C.Chance(1, 6) {
 		f.Jump = 1
 	}
+	if k.C.Chance(1, 2) {
+		f.Burst = k.C.Range(1, 3)
+	}
+	k.W.EagerFetch = k.C.Chance(1, 4)
+	if k.W.EagerFetch {
+		k.W.Stat("mode:eager-fetch")
+	}
 	return f
 }
 
